@@ -101,3 +101,109 @@ func switchOrderedWithWrites(c *core.Ctx) {
 	}
 	_ = token.NoPos
 }
+
+// Three more, recorded after the third hunt (DESIGN.md section 4): the repairs are new mechanisms (a positional TLV8 reader; a
+// service hook between accessory and transport; a bound on plain-text reads set by the pair-verify endpoint), not minimal patches.
+
+// emptyValueKeepsItsItem (C17-R4): a zero-length value has an item of its own on the wire and in the reader. The struct writer
+// fragments a value into items of at most 255 bytes and writes none for an empty value; the reader drops items of length zero. An
+// empty string or byte field inside a list element therefore leaves no trace: in an inline list the values of the later elements move
+// up ( [{1,""},{2,"bob"},{3,"eve"}] comes back as [{1,"bob"},{2,"eve"},{3,""}] ), a tagged list loses its empty elements.
+func emptyValueKeepsItsItem(c *core.Ctx) {
+	p := c.P
+	if f := p.Func("tlv8", "(*writer).writeBytes"); f != nil && len(f.Blocks) > 0 {
+		writes := map[*ssa.BasicBlock]bool{}
+		core.Instrs(f, func(i ssa.Instruction) {
+			if g := core.Callee(i); g != nil && (cn(g) == "write" || cn(g) == "Write" || cn(g) == "WriteByte") {
+				writes[i.Block()] = true
+			}
+		})
+		silent := false
+		for b := range core.Reach(f.Blocks[0], nil, func(x *ssa.BasicBlock) bool { return writes[x] }) {
+			if writes[b] {
+				continue
+			}
+			if _, isRet := b.Instrs[len(b.Instrs)-1].(*ssa.Return); isRet {
+				silent = true
+			}
+		}
+		c.Check(!silent && len(writes) > 0, "empty-value-keeps-its-item@"+fname(f), f.Pos(), "every value, also an empty one, is written as at least one item",
+			"the struct writer writes no item for a zero-length value: an empty string or byte field inside a list element leaves no trace on the wire — a tagged list loses its empty elements, and in an inline list the values of later elements move into earlier ones when the bytes are decoded")
+	}
+	if f := p.Func("tlv8", "read"); f != nil {
+		var dropped ssa.Value
+		core.Instrs(f, func(i ssa.Instruction) {
+			if _, ok := i.(*ssa.MapUpdate); !ok {
+				return
+			}
+			for _, iff := range controlDepsAll(i.Block()) {
+				bo, ok := iff.Cond.(*ssa.BinOp)
+				if !ok {
+					continue
+				}
+				call, ok := bo.X.(*ssa.Call)
+				if !ok {
+					continue
+				}
+				if bi, isB := call.Call.Value.(*ssa.Builtin); isB && bi.Name() == "len" {
+					if k, isK := core.ConstInt(bo.Y); isK && k == 0 {
+						if _, isSlice := call.Call.Args[0].Type().Underlying().(*types.Slice); isSlice {
+							dropped = iff.Cond
+						}
+					}
+				}
+			}
+		})
+		pos := f.Pos()
+		if dropped != nil && dropped.Pos().IsValid() {
+			pos = dropped.Pos()
+		}
+		c.Check(dropped == nil, "zero-length-item-kept@"+fname(f), pos, "items of length zero are filed like any other item",
+			"the struct reader drops items of length zero (other than nothing can tell them from the list delimiter): an empty field of a list element does not hold its place, the values behind it are attributed to the wrong element")
+	}
+}
+
+// lateServicesAreWired (C10-R2): the transport registers its notification callbacks on the characteristics it finds when it is
+// created. Accessory.AddService is exported, numbers the new service at once (row 34) and the library's own television example
+// calls it after NewIPTransport: such a service is served, readable, writable, accepts ev:true — and never sends an event. Either
+// AddService tells somebody (a hook of the accessory that the transport registered), or nothing does.
+func lateServicesAreWired(c *core.Ctx) {
+	f := c.P.Func("accessory", "(*Accessory).AddService")
+	if f == nil {
+		return
+	}
+	hook := false
+	core.Instrs(f, func(i ssa.Instruction) {
+		call, ok := i.(*ssa.Call)
+		if !ok || call.Call.IsInvoke() || call.Call.StaticCallee() != nil {
+			return
+		}
+		if _, isB := call.Call.Value.(*ssa.Builtin); isB {
+			return
+		}
+		hook = true // a call through a function value: somebody is told
+	})
+	c.Check(hook, "late-services-are-wired@"+fname(f), f.Pos(), "AddService notifies registered hooks",
+		"a service added to an accessory after the transport was created (as the library's television example does) is never wired for notifications: its characteristics accept subscriptions and never send an event")
+}
+
+// plaintextBoundedByRequest (C05-R4): while the finish request of pair-verify is handled, nothing behind that request is handed
+// out as plain text. net/http starts a one-byte read as soon as the request body has been consumed — the handler is still checking
+// the signature, the keys are not active yet. A byte that an on-path adversary appended to the request in the same segment is
+// already in the read-ahead buffer and is handed over as plain text; after the switch net/http puts it in front of the first
+// decrypted request ("XPUT /characteristics …": answered 200, executed never, no error anywhere). Rows 38 and 40 brought the
+// read-ahead down from 4096 bytes to one; the last byte needs the endpoint to tell the connection where its request ends.
+func plaintextBoundedByRequest(c *core.Ctx) {
+	f := c.P.Func("hap/endpoint", "(*PairVerify).ServeHTTP")
+	if f == nil {
+		return
+	}
+	bounded := false
+	core.Instrs(f, func(i ssa.Instruction) {
+		if g := core.Callee(i); g != nil && core.TypeIs(recvType(g), tConn) {
+			bounded = true // the endpoint talks to its hap.Connection
+		}
+	})
+	c.Check(bounded, "plaintext-bounded-by-request@"+fname(f), f.Pos(), "the pair-verify endpoint bounds the plain-text reads of its connection to the request in progress",
+		"nothing keeps the connection from handing out, as plain text, a byte that follows the finish request of pair-verify in the same segment (net/http reads one byte ahead while the handler runs): after the switch that byte is glued in front of the first decrypted request — an on-path adversary neutralises the first command of the verified session without an error on either side")
+}
